@@ -313,6 +313,31 @@ def run(tier, seed):
             if why:
                 viol.append({"world": "stale-member%d" % i, "names": names, "failing": victim, "mode": mode, "why": "; ".join(why), "klass": None})
             shutil.rmtree(base, ignore_errors=True)
+        # (round 4, S1 of seed C13-4's notes) every name is in the destination with the right bytes on its own inode; one carries a
+        # whole-second time stamp (tar, an older tool): up to date for the planner -- and still a member of its group
+        for i in range(2 if tier == "quick" else 8):
+            base = os.path.join(sc.dir, "ws%d" % i)
+            src, dst = base + "/src", base + "/dst"
+            os.makedirs(src); os.makedirs(dst)
+            data = world.pbytes(4500 + i, [40, 70000][i % 2])
+            stamp = (world.T0 + 7000) * 10**9 + [700_000_000, 999_999_999, 1][i % 3]
+            names = ["g%d" % q for q in range(2 + i % 2)]
+            with open(os.path.join(src, names[0]), "wb") as f:
+                f.write(data)
+            os.utime(os.path.join(src, names[0]), ns=(stamp, stamp))
+            for nm in names[1:]:
+                os.link(os.path.join(src, names[0]), os.path.join(src, nm))
+            for q, nm in enumerate(names):
+                with open(os.path.join(dst, nm), "wb") as f:
+                    f.write(data)
+                st_ = stamp if q != len(names) - 1 else (stamp // 10**9) * 10**9 + (10**9 if i % 4 == 3 else 0)      # truncated (or rounded up)
+                os.utime(os.path.join(dst, nm), ns=(st_, st_))
+            rr = world.run_sy([src, dst, "-H", "-q", "-j%d" % [1, 4][i % 2]], sc, timeout=60)
+            inos = {os.stat(os.path.join(dst, nm)).st_ino for nm in names}
+            bad = [nm for nm in names if world.sha(os.path.join(dst, nm)) != world.sha(os.path.join(src, nm))]
+            if rr["rc"] != 0 or len(inos) != 1 or bad:
+                viol.append({"world": "whole-second-stamp%d" % i, "why": "a group of %d names, all in the destination with the right bytes, one with a whole-second time stamp: after -H exit %s, %d inodes, wrong content %r" % (len(names), rr["rc"], len(inos), bad), "klass": None})
+            shutil.rmtree(base, ignore_errors=True)
         for i in range(2 if tier == "quick" else 6):
             base = os.path.join(sc.dir, "rf%d" % i)
             src, dst = base + "/src", base + "/dst"
